@@ -1,12 +1,137 @@
 /-
-  C03 — property theorems only (helper lemmas live in Lemmas*.lean).
+  C03 — property theorems only (proofs live in Lemmas*.lean; nothing is assumed: the hypothesis
+  bundles `ReaderSpecs` / `EncSpecs` used between the proof files are instantiated here by
+  `readerSpecs` / `encSpecs`).  All statements are unbounded: every name, field subset, buffer
+  split, abstract signer, reader kind and segmentation.
+
+  Guards: `DataIn.Valid` / `InterestIn.Valid` = what the Go types can hold (component types and
+  natural values < 2^64, nonce < 2^32, hop limit < 256) and a total size < 2^62;
+  `NoTrailingDigest` = an Interest WITHOUT parameters does not end, after the encoder dropped one
+  trailing digest component, in yet another ParametersSha256Digest component (the decoder rejects a
+  trailing digest without parameters by design).  `(H x).length = 32` is SHA-256's output size.
 -/
-import NdnVerif.C03.Parse
-import NdnVerif.C03.Spec
+import NdnVerif.C03.LemmasEnc
+import NdnVerif.C03.LemmasFinal
+import NdnVerif.C03.Examples
 namespace Ndn.C03
 
-/-- placeholder while the proofs are being built: the length pass of a component equals what is written -/
-theorem compLen_eq (c : Component) : (encComp c).length = compLen c := by
-  simp [encComp, compLen, encTL_length]; omega
+/-! ### two-pass encoder: the length pass announces exactly what is written -/
+
+theorem lengthPass_exact :
+    (∀ n : Name, (encNameInner n).length = nameLen n) ∧ (∀ m : MetaInfo, (encMeta m).length = metaLen m)
+    ∧ (∀ k : KeyLoc, (encKeyLoc k).length = keyLocLen k) ∧ (∀ s : SigInfo, (encSigInfo s).length = sigInfoLen s)
+    ∧ (∀ ns : List Name, (encLinks ns).length = linksLen ns) :=
+  ⟨encSpecs.nameLen_eq, encSpecs.metaLen_eq, encSpecs.keyLocLen_eq, encSpecs.sigInfoLen_eq, encSpecs.linksLen_eq⟩
+
+/-- MakeData: the joined output wire is ONE TLV of type 6 whose length field is exact, with the
+    actual signature length re-encoded and the bytes handed to the signer = the signed portion -/
+theorem makeData_normalForm (d : DataIn) (sign : Bytes → Bytes) (e : Encoded) (hv : d.Valid)
+    (hm : makeData d sign = .ok e) :
+    e.wire.flatten = encTL 6 ++ encTL (dataValue d e.sigVal).length ++ dataValue d e.sigVal
+    ∧ (d.est > 0 → e.sigVal = sign (dataCovered d) ∧ e.sigCovered = some (dataCovered d) ∧ e.sigVal.length ≤ d.est)
+    ∧ (d.est = 0 → e.sigCovered = none) :=
+  encSpecs.makeData_flatten d sign e hv hm
+
+theorem makeInterest_normalForm (i : InterestIn) (sign H : Bytes → Bytes) (e : Encoded) (fn : Name) (hv : i.Valid)
+    (hH : ∀ x, (H x).length = 32) (hm : makeInterest i sign H = .ok (e, fn)) :
+    fn = interestFinalName i H e.sigVal
+    ∧ e.wire.flatten = encTL 5 ++ encTL (interestValue i fn e.sigVal).length ++ interestValue i fn e.sigVal
+    ∧ (i.est > 0 → e.sigVal = sign (interestCovered i) ∧ e.sigCovered = some (interestCovered i) ∧ e.sigVal.length ≤ i.est)
+    ∧ (i.est = 0 → e.sigCovered = none ∧ e.sigVal = []) :=
+  encSpecs.makeInterest_flatten i sign H e fn hv hH hm
+
+/-! ### well-formed TLV with exact lengths (independent walker) -/
+
+theorem makeData_wellFormed (d : DataIn) (sign : Bytes → Bytes) (e : Encoded) (hv : d.Valid)
+    (hm : makeData d sign = .ok e) : Spec.wfData e.wire.flatten = true :=
+  makeData_wellFormed_E encSpecs d sign e hv hm
+
+theorem makeInterest_wellFormed (i : InterestIn) (sign H : Bytes → Bytes) (e : Encoded) (fn : Name)
+    (hv : i.Valid) (hH : ∀ x, (H x).length = 32) (hm : makeInterest i sign H = .ok (e, fn)) :
+    Spec.wfInterest e.wire.flatten = true :=
+  makeInterest_wellFormed_E encSpecs i sign H e fn hv hH hm
+
+/-! ### segmentation: WireReader ⊑ BufferReader -/
+
+/-- Operation-level refinement: on every healthy reader — a BufferReader, or a WireReader over ANY
+    segmentation whose segments after the first are non-empty, at any position, including the
+    sub-readers produced by `Delegate` — each ParseReader operation (Pos, Length, ReadByte, ReadBuf,
+    ReadWire, Read/ReadFull, Skip, Range, Delegate) returns what the BufferReader operation returns
+    on the joined buffer, in the success AND the failure direction. -/
+theorem wireReader_refines_bufferReader : ReaderSpecs := readerSpecs
+
+/-- a WireReader freshly built over non-empty segments is healthy over the joined bytes -/
+theorem newWireReader_healthy (segs : List Bytes) (h : NonEmptySegs segs) :
+    At (newWireReader segs) segs.flatten 0 := at_newWireReader_ne segs h
+
+/-! ### decode ∘ encode = id -/
+
+/-- ReadData on the bytes of MakeData — over ANY healthy reader (contiguous or segmented) — returns
+    the name, MetaInfo fields, content (concatenation of the buffers), SignatureInfo and signature
+    value that were encoded, and the signed portion that was handed to the signer. -/
+theorem readData_makeData (d : DataIn) (sign : Bytes → Bytes) (e : Encoded) (r : Rd) (hv : d.Valid)
+    (hm : makeData d sign = .ok e) (hr : At r e.wire.flatten 0) :
+    ∃ cov, readData r = .ok (dataExpect d e.sigVal, cov) ∧ (d.est > 0 → e.sigCovered = some cov) ∧ (d.est = 0 → cov = []) :=
+  readData_makeData_E encSpecs d sign e r hv hm hr
+
+theorem readInterest_makeInterest (i : InterestIn) (sign H : Bytes → Bytes) (e : Encoded) (fn : Name) (r : Rd)
+    (hv : i.Valid) (hnt : NoTrailingDigest i) (hH : ∀ x, (H x).length = 32)
+    (hm : makeInterest i sign H = .ok (e, fn)) (hr : At r e.wire.flatten 0) :
+    ∃ cov, readInterest H r = .ok (interestExpect i fn e.sigVal, cov) ∧ (i.est > 0 → e.sigCovered = some cov) :=
+  readInterest_makeInterest_E encSpecs i sign H e fn r hv hnt hH hm hr
+
+/-- for EVERY segmentation into non-empty segments the segmented decode equals the contiguous one -/
+theorem readData_segmented (d : DataIn) (sign : Bytes → Bytes) (e : Encoded) (segs : List Bytes) (hv : d.Valid)
+    (hm : makeData d sign = .ok e) (hne : NonEmptySegs segs) (hj : segs.flatten = e.wire.flatten) :
+    readData (newWireReader segs) = readData (newBufferReader e.wire.flatten)
+    ∧ ∃ cov, readData (newWireReader segs) = .ok (dataExpect d e.sigVal, cov) :=
+  readData_segmented_E encSpecs d sign e segs hv hm hne hj
+
+theorem readInterest_segmented (i : InterestIn) (sign H : Bytes → Bytes) (e : Encoded) (fn : Name) (segs : List Bytes)
+    (hv : i.Valid) (hnt : NoTrailingDigest i) (hH : ∀ x, (H x).length = 32)
+    (hm : makeInterest i sign H = .ok (e, fn)) (hne : NonEmptySegs segs) (hj : segs.flatten = e.wire.flatten) :
+    ∃ c1 c2, readInterest H (newWireReader segs) = .ok (interestExpect i fn e.sigVal, c1)
+      ∧ readInterest H (newBufferReader e.wire.flatten) = .ok (interestExpect i fn e.sigVal, c2)
+      ∧ (i.est > 0 → c1 = c2) :=
+  readInterest_segmented_E encSpecs i sign H e fn segs hv hnt hH hm hne hj
+
+theorem readPacket_makeData (d : DataIn) (sign H : Bytes → Bytes) (e : Encoded) (r : Rd) (hv : d.Valid)
+    (hm : makeData d sign = .ok e) (hr : At r e.wire.flatten 0) :
+    ∃ cov, readPacket H r = .ok (.data (dataExpect d e.sigVal) cov) :=
+  readPacket_makeData_E encSpecs d sign H e r hv hm hr
+
+/-! ### standalone name / component codecs -/
+
+theorem nameBytes_eq_packetName (n : Name) :
+    nameBytes n = encNameField 7 n ∧ nameBytes n = Spec.encName n
+    ∧ ∀ (d : DataIn) (sv : Bytes), d.name = n → ∃ rest, dataValue d sv = nameBytes n ++ rest :=
+  nameBytes_eq_packetName_E encSpecs n
+
+theorem nameFromBytes_nameBytes (n : Name) (hv : NameValid n) (hl : nameLen n < 2 ^ 62) :
+    nameFromBytes (nameBytes n) = .ok n :=
+  nameFromBytes_nameBytes_E encSpecs n hv hl
+
+theorem componentFromBytes_compBytes (c : Component) (hc : CompValid c) (hl : c.val.length < 2 ^ 62) :
+    componentFromBytes (encComp c) = .ok c :=
+  componentFromBytes_compBytes_E c hc hl
+
+/-! ### non-vacuity: a concrete signed Data (a 300-byte component, three content buffers, estimate 300
+    with a 200-byte signature, so the 3-byte length field is narrowed to 1 byte and the packet
+    shrunk) and a concrete signed Interest with parameters and forwarding hint meet every hypothesis
+    of the theorems above (`Valid`, successful build, `NoTrailingDigest`, hash size, non-empty
+    segments, healthy readers via `at_newBufferReader` / `newWireReader_healthy`) -/
+
+/-- hypotheses of makeData_normalForm / makeData_wellFormed / readData_makeData are met -/
+set_option maxRecDepth 100000 in
+example : ∃ e, makeData exData exSign = .ok e ∧ e.sigVal.length = 200 := ⟨_, rfl, rfl⟩
+set_option maxRecDepth 100000 in
+example : ∃ e fn, makeInterest exInterest exSign32 exHash = .ok (e, fn) ∧ e.sigVal.length = 30 ∧ fn.length = 2 :=
+  ⟨_, _, rfl, rfl, rfl⟩
+example : NoTrailingDigest exInterest := by intro h; cases h
+example : ∀ x, (exHash x).length = 32 := by intro x; simp [exHash]
+
+example : NonEmptySegs [[1, 2], [3]] := by intro s hs; simp at hs; rcases hs with h | h <;> simp [h]
+example : At (newBufferReader [6, 0]) [6, 0] 0 := at_newBufferReader _
+example : NameValid exKey ∧ nameLen exKey < 2 ^ 62 := ⟨exKey_valid, by decide⟩
 
 end Ndn.C03
